@@ -602,15 +602,27 @@ Qed.
 
 End Safe.
 
+Lemma pp_unfold start inp : parse_pairs start inp = parse_with G (default_fuel inp) start inp.
+Proof. reflexivity. Qed.
+
+Lemma of_parse {A} (o : outcome (list pr)) (b : list pr -> bres A) :
+  (forall ps, o = Ok ps -> safe (b ps)) ->
+  forall k, match o with Ok ps => of_bres (b ps) | Fail => PErr | OutOfFuel => PFuel end = PPanic k ->
+  k = P_char \/ k = P_radix.
+Proof.
+  intros Hs k H. destruct o as [ps| |]; try discriminate H.
+  specialize (Hs ps eq_refl). destruct (b ps) as [d|k']; cbn [of_bres] in H; [discriminate H|].
+  inversion H; subst. exact Hs.
+Qed.
+
 (** for every text: if the parser model's outcome is a panic, it is one of the two value-level panics of
     string escapes -- never a shape panic of the builder, never "Empty document" *)
 Theorem builder_shapes_ok : forall inp file k,
   parse_operation_document file inp = PPanic k -> k = P_char \/ k = P_radix.
 Proof.
-  intros inp file k H. unfold parse_operation_document, parse_pairs, parse in H.
-  destruct (parse_with G (default_fuel inp) R_ExecutableDocument inp) as [ps| |] eqn:E; try discriminate H.
+  intros inp file k H.
+  apply (of_parse (parse_pairs R_ExecutableDocument inp) (build_operation_document inp file)); [|exact H].
+  intros ps E. rewrite pp_unfold in E.
   destruct (parse_gent _ _ _ _ E) as [t Hg].
-  pose proof (safe_operation_document inp file ps t Hg) as Hs.
-  destruct (build_operation_document inp file ps) as [d|k']; cbn [of_bres] in H; [discriminate H|].
-  inv H. exact Hs.
+  exact (safe_operation_document inp file ps t Hg).
 Qed.
